@@ -13,10 +13,13 @@
    is the clock advancing; remaining time saturates at 0, so the model is finite
    without bounding the clock.
 
-   Dial(p,h) is not a method of State: it is the body of the scheduler's
-   announce-result loop (events.go: skip if Blacklisted, else AddPending with no
-   neighbours).  It is specified here because C16's last clause is a contract
-   between the two; a scheduler-level trace validates its Dial events against it. *)
+   Announce(h, ps) and HandshakeFailed(p, h) are not methods of State: they are the
+   scheduler events that use it (events.go: announceResultEvent walks the peers the
+   tracker returned, skips itself and every peer for which Blacklisted answers
+   true, calls AddPending with no neighbours and stops at ErrTorrentAtCapacity;
+   failedOutgoingHandshakeEvent is DeletePending followed by Blacklist).  They are
+   specified here because C16's last clause -- blacklisted peers are not dialled
+   until their blacklist expires -- is a contract between the two.               *)
 EXTENDS Sequences, FiniteSets, Integers
 CONSTANTS Hashes,        \* torrents "h1".."hN"
           Peers,         \* peers "p1".."pN"
@@ -96,16 +99,33 @@ SaturatedRes(h) == Cardinality({c \in active : c[1] = h}) = maxConns
 ActiveConnsRes == active
 SnapshotRes == {<<x[1], x[2], bl[x]>> : x \in {y \in Slots : bl[y] >= 0}}
 
-(* the scheduler's announce-result loop body for one returned peer *)
-Dial(p, h) == ~BlacklistedRes(p, h) /\ AddPending(p, h, <<>>)
+(* scheduler events built on State (events.go) *)
+\* announceResultEvent{h, ps}: the slots pending after walking the peer list ps (names outside Peers,
+\* e.g. the scheduler's own id, are skipped); a peer that is added is "dialled"
+RECURSIVE AnnFold(_, _, _)
+AnnFold(h, ps, pend) ==
+  IF ps = <<>> THEN pend
+  ELSE LET p == Head(ps)
+           cnt == Cardinality({x \in pend : x[1] = h}) + Cardinality({c \in active : c[1] = h})
+       IN IF p \notin Peers \/ bl[h, p] > 0 THEN AnnFold(h, Tail(ps), pend)
+          ELSE IF cnt = maxConns THEN pend
+          ELSE IF <<h, p>> \in pend \/ ActiveAt(h, p) # {} THEN AnnFold(h, Tail(ps), pend)
+          ELSE AnnFold(h, Tail(ps), pend \cup {<<h, p>>})
+Announce(h, ps) == pending' = AnnFold(h, ps, pending) /\ UNCHANGED <<active, closed, bl, cvars>>
+\* failedOutgoingHandshakeEvent{p, h}
+HandshakeFailed(p, h) ==
+  /\ pending' = pending \ {<<h, p>>}
+  /\ bl' = IF ~noBl /\ bl[h, p] <= 0 THEN [bl EXCEPT ![h, p] = dur] ELSE bl
+  /\ UNCHANGED <<active, closed, cvars>>
 
 Next == \/ \E p \in Peers, h \in Hashes : \/ \E ns \in NeighChoices : AddPending(p, h, ns)
                                           \/ DeletePending(p, h)
-                                          \/ Dial(p, h)
         \/ \E c \in Conns : MoveToActive(c) \/ DeleteActive(c)
         \/ \E c \in Closable : CloseConn(c)
         \/ \E x \in BlSlots : Blacklist(x[2], x[1])
         \/ \E h \in Hashes : ClearBlacklist(h)
+        \/ \E h \in Hashes, ps \in NeighChoices : Announce(h, ps)
+        \/ \E x \in BlSlots : HandshakeFailed(x[2], x[1])
         \/ \E d \in 1..MaxTick : Tick(d)
 Spec == Init /\ [][Next]_vars
 
@@ -131,7 +151,7 @@ ActivationRule == [][\A c \in Conns : (c \in active' /\ c \notin active) =>
 \* a replaced connection is never removed on behalf of an older one: DeleteActive(c) removes nothing but c
 ReplacedSafe == [][\A c \in Conns : DeleteActive(c) => (active \ active') \subseteq {c}]_vars
 \* blacklisted peers are not dialled; a blacklist entry ends only through the clock or ClearBlacklist of its torrent
-DialRule == [][\A p \in Peers, h \in Hashes : (Dial(p, h) /\ <<h, p>> \in pending' /\ <<h, p>> \notin pending) => bl[h, p] <= 0]_vars
+DialRule == [][\A h \in Hashes, ps \in NeighChoices : Announce(h, ps) => \A x \in pending' \ pending : bl[x] <= 0]_vars
 BlacklistLasts == [][\A x \in Slots : (bl[x] > 0 /\ bl'[x] < bl[x]) =>
                          \/ bl'[x] = 0 - 1 /\ \A y \in Slots : y[1] = x[1] => bl'[y] = 0 - 1
                          \/ \A y \in Slots : bl[y] > 0 => bl'[y] < bl[y]]_vars
